@@ -46,6 +46,12 @@ FIXED = [
   "a CAN-ASC frame line with a 14-digit seconds value ('18446744073710.654773 CANFD 89 Rx ErrorFrame ...') overflowed 'secs * 1_000_000' in parse_signed_time_str (attempt to multiply with overflow)", "replays/examples/C03-asc-timestamp-mul-overflow.json"),
  ("KF-C03-7", "C03", "C03-hex_to_bytes-non-ascii", "fix: hex_to_bytes doesn't panic on non ascii chars",
   "a CAN-ASC frame line whose data field contains multi-byte UTF-8 characters made utils::hex_to_bytes slice a str inside a character ('end byte index 2 is not a char boundary')", "replays/examples/C03-hex_to_bytes-non-ascii.json"),
+ ("KF-C03-8", "C03", "C03-logcat-long-tag", "fix: logcat apid info msg for a very long tag",
+  "a logcat line whose tag has about 65 500 or more bytes overflowed 'len_wo_payload + payload.len() as u16' of the generated GET_LOG_INFO message (attempt to add with overflow)", "replays/examples/C03-logcat-long-tag.json"),
+ ("KF-C03-9", "C03", "C03-genlog-long-tag", "fix: genlog apid info msg for a very long tag",
+  "a generic-log line '[2024-02-29 23:59:59.999] [INF] [<tag of ~65 500 bytes>] ...' overflowed the u16 length of the generated GET_LOG_INFO message (attempt to add with overflow)", "replays/examples/C03-genlog-long-tag.json"),
+ ("KF-C03-10", "C03", "C03-asc-long-bus-name", "fix: asc BusMapping with a very long name",
+  "a CAN-ASC comment '// BusMapping: CAN 1 = <name of ~65 500 bytes>' overflowed the u16 length of the generated GET_LOG_INFO message (attempt to add with overflow)", "replays/examples/C03-asc-long-bus-name.json"),
  ("KF-C18-1", "C18", "C18-payload_from_args-empty-string-or-raw", "fix: payload_from_args writes the length",
   "utils::payload_from_args wrote no u16 length prefix for an empty string/raw argument, so the encoded payload did not decode to the same arguments (a single empty raw value: 4 bytes written, 0 arguments decoded)",
   "replays/examples/C18-payload_from_args-empty-raw.json"),
